@@ -31,12 +31,15 @@ ACOS_DEFINED = {"tau", "theta", "ttheta"}
 
 def differs(k, a, b, tol=1e-6):
     """angles (deg) differ by more than tol — except at the turning point of the defining asin/acos, where one ulp of the
-    sine/cosine is ~1e-6 deg of angle: there the sine/cosine itself is compared"""
-    if angdiff(a, b) <= tol:
+    sine/cosine is ~1e-6 deg of angle: there (and only within 2e-5 deg of each other) the sine/cosine itself is compared"""
+    d = angdiff(a, b)
+    if d <= tol:
         return False
+    if d > 2e-5:
+        return True
     if k in ASIN_DEFINED and abs(math.sin(math.radians(a)) - math.sin(math.radians(b))) < 1e-12:
         return False
-    if k in ACOS_DEFINED and abs(math.cos(math.radians(a)) - math.cos(math.radians(b))) < 1e-12:
+    if (k in ACOS_DEFINED or k == "psi") and abs(math.cos(math.radians(a)) - math.cos(math.radians(b))) < 1e-12:
         return False
     return True
 
@@ -120,10 +123,21 @@ def oracle(ctx, widen=1):
     for it in range(n):
         ub, v, w, frames = setup(ctx.rng)
         pos, regime = rand_pos(ctx.rng)
+        if ctx.rng.random() < 0.15:
+            # reference (or surface) direction a hair off the beam axis at this position: just outside the pole of naz / psi
+            from harness.common import mats
+            Zm = mats(pos)[2]
+            t = math.radians(10.0 ** ctx.rng.uniform(-4.5, -0.5)); a = ctx.rng.uniform(0, 2 * math.pi)
+            nl = np.array([math.sin(t) * math.cos(a), ctx.rng.choice([1.0, -1.0]) * math.cos(t), math.sin(t) * math.sin(a)])
+            vec = Zm.T @ nl
+            if frames[0] == "hkl":
+                vec = np.linalg.solve(np.asarray(ub.UB, float), vec)
+            v = vec * ctx.rng.choice([1.0, 0.3, 4.0])
+            regime = regime + ":near-beam-axis"
         hc = HklCalculation(ub, Constraints())
         base = None
         bad = None
-        for k1, k2 in ((1, 1), (2, 1), (0.1, 7), (7, 0.1), (1, 2)):
+        for k1, k2 in ((1, 1), (2, 1), (0.1, 7), (7, 0.1), (1, 2), (3e-8, 1), (1, 1e-9), (2e5, 4e6)):      # any positive length
             apply_vectors(ub, v, w, frames, k1, k2)
             kinds.add((frames, k1, k2, regime))
             try:
@@ -138,14 +152,17 @@ def oracle(ctx, widen=1):
             skip = set()
             if abs(math.sin(2 * th)) < 1e-4:
                 skip |= {"qaz", "psi", "naz", "tau", "beta"}
-            if abs(math.cos(math.radians(pp.get("alpha", 0.0)))) < 1e-4:
+            if abs(math.cos(math.radians(pp.get("alpha", 0.0)))) < 2e-6:      # the code's own pole: |cos alpha| <= 1e-7
                 skip |= {"naz", "psi"}
             if abs(math.sin(math.radians(pp.get("tau", 90.0)))) < 1e-4:
                 skip |= {"psi"}
             for k, val in va.items():
-                if k in skip or k not in pp or math.isnan(val):
+                if k in skip or k not in pp:
                     continue
-                if differs(k, val, pp[k]):
+                if math.isnan(val):
+                    bad = f"{k} is reported as NaN although it is defined there (geometric definition: {pp[k]:.8f}; vectors x{k1}/x{k2}, frames {frames})"
+                    break
+                if differs(k, val, pp[k], 1e-6 if k not in ("naz", "psi") else max(1e-6, 2e-9 / max(abs(math.cos(math.radians(pp.get("alpha", 0.0)))), 1e-12))):
                     bad = f"{k} = {val:.8f} but the geometric definition gives {pp[k]:.8f} (vectors x{k1}/x{k2}, frames {frames})"
                     break
             if bad:
@@ -164,7 +181,7 @@ def oracle(ctx, widen=1):
             ctx.violation(f"get_virtual_angles at {tuple(round(x, 4) for x in pos)}: {bad}",
                           {"pos": pos, "reference": v.tolist(), "surface": w.tolist(), "frames": list(frames), "UB": np.asarray(ub.UB).tolist()},
                           {"kind": "pseudo-angle", "what": bad.split(" ")[0]})
-    ctx.stream("oracle:geometric-definitions", n * 5, len(kinds))
+    ctx.stream("oracle:geometric-definitions", n * 8, len(kinds))
     # one HklCalculation object, already used, then the UB matrix or the vectors change: the angles must follow the CURRENT state
     nseq = ctx.scale(120, 6000) * widen
     kinds2 = set()
